@@ -100,6 +100,14 @@ fn run_rep<const P: u128>(rep: &Rep, n: usize, fstep: usize, pname: &str) -> Rep
             r.violation("hash:weights-not-normalised", format!("create_semantic_hash_map<{}>: low + high != 1", pname), json!({"kind": "hashmap", "prime": pname}));
         }
     }
+    // a second weight table over the same field (the shipped table with the variables' weights rotated) and the
+    // shipped table of another exported field: the un-cached semantic_hash must answer for the table it is given,
+    // whatever an earlier cached call with another table left on the nodes
+    let w_alt: Vec<(u128, u128)> = (0..n).map(|v| w[(v + 1) % n.max(1)]).collect();
+    let map_alt: WmcParams<FiniteField<P>> = WmcParams::new((0..n).map(|v| (VarLabel::new(v as u64), (FiniteField::new(w_alt[v].0), FiniteField::new(w_alt[v].1)))).collect::<std::collections::HashMap<_, _>>());
+    let other_small = create_semantic_hash_map::<{ primes::U32_SMALL }>(n);
+    let other_tiny = create_semantic_hash_map::<{ primes::U32_TINY }>(n);
+    let (w_small, w_tiny) = (weights_of(&other_small, n), weights_of(&other_tiny, n));
     let total = 1u64 << (1u64 << n);
     let viol = |r: &mut Report, f: u64, what: String| {
         r.violation("hash:not-denotational", format!("n={} {} prime {} function {:#x}: {}", n, rep_json(rep), pname, f, what), json!({"kind": "hash", "n": n, "rep": rep_json(rep), "prime": pname, "function": format!("{:#x}", f)}));
@@ -134,6 +142,18 @@ fn run_rep<const P: u128>(rep: &Rep, n: usize, fstep: usize, pname: &str) -> Rep
                         check(guarded(|| p.neg().cached_semantic_hash(b.order(), &map).value()), wneg, &format!("cached_semantic_hash of the negation ({})", how)),
                     ].into_iter().flatten() {
                         viol(&mut r, f, e);
+                    }
+                    if n >= 1 && !disabled("secondtable") {
+                        r.evaluations += 3;
+                        let other = if P == primes::U32_SMALL { guarded(|| p.semantic_hash(&other_tiny).value()) } else { guarded(|| p.semantic_hash(&other_small).value()) };
+                        let want_other = if P == primes::U32_SMALL { defining_sum(f, n, &w_tiny, primes::U32_TINY) } else { defining_sum(f, n, &w_small, primes::U32_SMALL) };
+                        for e in [
+                            check(guarded(|| p.semantic_hash(&map_alt).value()), defining_sum(f, n, &w_alt, P), "semantic_hash with a second weight table of the same field, after cached hashes with the first"),
+                            check(other, want_other, "semantic_hash with the shipped table of another exported field, after cached hashes in this field"),
+                            check(guarded(|| p.semantic_hash(&map).value()), want, "semantic_hash with the first table again"),
+                        ].into_iter().flatten() {
+                            viol(&mut r, f, e);
+                        }
                     }
                 }
                 r.states += 1;
@@ -170,6 +190,18 @@ fn run_rep<const P: u128>(rep: &Rep, n: usize, fstep: usize, pname: &str) -> Rep
                         check(guarded(|| p.neg().cached_semantic_hash(b.vtree_manager(), &map).value()), wneg, &format!("cached_semantic_hash of the negation ({})", how)),
                     ].into_iter().flatten() {
                         viol(&mut r, f, e);
+                    }
+                    if n >= 1 && !disabled("secondtable") {
+                        r.evaluations += 3;
+                        let other = if P == primes::U32_SMALL { guarded(|| p.semantic_hash(&other_tiny).value()) } else { guarded(|| p.semantic_hash(&other_small).value()) };
+                        let want_other = if P == primes::U32_SMALL { defining_sum(f, n, &w_tiny, primes::U32_TINY) } else { defining_sum(f, n, &w_small, primes::U32_SMALL) };
+                        for e in [
+                            check(guarded(|| p.semantic_hash(&map_alt).value()), defining_sum(f, n, &w_alt, P), "semantic_hash with a second weight table of the same field, after cached hashes with the first"),
+                            check(other, want_other, "semantic_hash with the shipped table of another exported field, after cached hashes in this field"),
+                            check(guarded(|| p.semantic_hash(&map).value()), want, "semantic_hash with the first table again"),
+                        ].into_iter().flatten() {
+                            viol(&mut r, f, e);
+                        }
                     }
                 }
                 r.states += 1;
